@@ -11,7 +11,7 @@ Serialised by /tmp/confirm.lock.  Nothing here is used by a registered check.
 import sys, os, json, subprocess, fcntl, re, shutil, time
 import xml.etree.ElementTree as ET
 
-WT = "/tmp/wt/confirm"
+WT = os.environ.get("CONFIRM_WT", "/tmp/wt/confirm")   # a second pipeline may use another scratch worktree
 ENV = dict(os.environ, CARGO_TARGET_DIR=WT + "/target", CARGO_NET_OFFLINE="true")
 JUNIT = WT + "/target/nextest/pb/junit.xml"
 NEXTEST = ["cargo", "nextest", "run", "--workspace", "--no-fail-fast", "--tool-config-file", "pb:/w/lib/nextest.toml",
@@ -62,7 +62,7 @@ def rerun_alone(tid):
 
 def main():
     srcs = [os.path.abspath(s) for s in sys.argv[1:]]
-    lock = open("/tmp/confirm.lock", "w")
+    lock = open("/tmp/confirm.lock" if WT == "/tmp/wt/confirm" else "/tmp/confirm_%s.lock" % os.path.basename(WT), "w")
     fcntl.flock(lock, fcntl.LOCK_EX)
     head = subprocess.run(["git", "-C", "/repo", "rev-parse", "HEAD"], stdout=subprocess.PIPE, text=True).stdout.strip()
     if not os.path.isdir(WT):
